@@ -323,6 +323,17 @@ def materialise(case):
 
 # ---------------------------------------------------------------- the implementation, canonicalised
 
+def _py_truthy(yj):
+    """truthiness of a value in its `Y` JSON form (harness statistics only)"""
+    if isinstance(yj, dict):
+        if 'i' in yj:
+            return int(yj['i']) != 0
+        if 'f' in yj:
+            return int(yj['f']) not in (0, 1 << 63)
+        return bool(yj.get('m'))
+    return bool(yj)
+
+
 def exc_class(e):
     for cls in (KeyError, AttributeError, TypeError):
         if isinstance(e, cls):
@@ -469,6 +480,161 @@ def views_outcome(path):
         return exc_class(e)
 
 
+# ---------------------------------------------------------------- the property, on the implementation alone
+
+def _wellformed_sources(loaded):
+    """the data sources of a settings object the PROPERTY speaks about without interpretation: a list of mappings whose `file` is a string"""
+    if not isinstance(loaded, dict) or not isinstance(loaded.get('data_sources'), list) or not loaded['data_sources']:
+        return None
+    srcs = loaded['data_sources']
+    if not all(isinstance(x, dict) and isinstance(x.get('file'), str) and type(x.get('supplemental', False)) is bool for x in srcs):
+        return None
+    return srcs
+
+
+def settings_oracle(case, cfgdir, loaded, il, ip):
+    """what the property demands of `load_config` / `cmd_run` on THIS settings object, from the settings as written (no model, no tally code):
+    every parsed source is read with ITS OWN delimiter / header / decimal / sign / name as written (values of the documented type only);
+    exactly the non-supplemental sources whose file is there are parsed, in order; only `most_specific` selects that mode; a
+    configured-but-missing merchants_file does not turn into the legacy CSV"""
+    fails = []
+
+    def fail(cls, **kw):
+        fails.append(dict({'class': cls, 'config_case': case}, **kw))
+    if 'ok' not in il:
+        return fails
+    k = il['ok']
+    budget = os.path.dirname(cfgdir)
+    if isinstance(loaded, dict):
+        v = loaded.get('rule_mode', 'first_match')
+        want = 'most_specific' if isinstance(v, str) and v == 'most_specific' else 'first_match'
+        if k['rule_mode'] != want:
+            fail('rule-mode-not-the-configured-one', written=repr(v), required=want, observed=k['rule_mode'])
+        mf = loaded.get('merchants_file')
+        legacy = os.path.join(cfgdir, 'merchant_categories.csv')
+        if isinstance(mf, str) and mf and '..' not in mf.split('/'):
+            p = os.path.join(budget, mf)
+            want = {'path': p, 'format': 'new'} if os.path.exists(p) else {'path': None, 'format': None}
+            if k['merchants'] != want:
+                fail('wrong-rules-file-selected', written=mf, required=want, observed=k['merchants'], legacy_csv_exists=os.path.exists(legacy))
+        elif 'merchants_file' not in loaded:
+            want = {'path': legacy, 'format': 'csv'} if os.path.exists(legacy) else {'path': None, 'format': None}
+            if k['merchants'] != want:
+                fail('wrong-rules-file-selected', written=None, required=want, observed=k['merchants'])
+    srcs = _wellformed_sources(loaded)
+    if srcs is None or ip is None or 'ok' not in ip:
+        return fails
+    calls = ip['ok']
+    # which sources are parsed, in which order
+    if all('..' not in x['file'].split('/') and not x['file'].startswith('/') for x in srcs):
+        want = [os.path.realpath(os.path.join(budget, x['file'])) for x in srcs if not x.get('supplemental', False) and os.path.exists(os.path.join(budget, x['file']))]
+        got = [os.path.realpath(c['path']) for c in calls]
+        if got != want:
+            fail('not-exactly-the-ordinary-sources-with-a-file-are-parsed', required_files_in_order=want, observed=got)
+            return fails
+    for c in calls:
+        if c['call'] != 'generic' or c.get('index') is None or c['index'] >= len(srcs):
+            continue
+        x = srcs[c['index']]
+        fs = c['format_spec']
+        checks = []
+        if 'delimiter' not in x or isinstance(x['delimiter'], str):
+            checks.append(('delimiter', fs['delimiter'], y_json(x.get('delimiter'))))
+        if 'has_header' not in x or type(x['has_header']) is bool:
+            checks.append(('has_header', fs['has_header'], x.get('has_header', True)))
+        if 'decimal_separator' not in x or isinstance(x['decimal_separator'], str):
+            checks.append(('decimal_separator', c['decimal_separator'], x.get('decimal_separator', '.')))
+        if 'name' not in x or isinstance(x['name'], str):
+            checks.append(('name', c['source_name'], x.get('name', 'CSV')))
+        if type(x.get('negate_amount')) is bool:
+            checks.append(('negate_amount', fs['negate_amount'], x['negate_amount']))
+        elif 'negate_amount' not in x and isinstance(x.get('format'), str):
+            checks.append(('negate_amount', fs['negate_amount'], '{-amount' in x['format'].lower().replace(' ', '')))
+        for key, got, want in checks:
+            if got != want:
+                fail('source-not-read-with-its-own-setting:' + key, source_index=c['index'], written=repr(x.get(key)), required=want, handed_to_the_parser=got)
+    return fails
+
+
+def locality_variants(r, loaded):
+    """(description, edited settings object, index of the edited source or None) - ONE source's setting or ONE top-level key changed"""
+    import copy
+    srcs = _wellformed_sources(loaded)
+    if srcs is None:
+        return []
+    out = []
+    i = r.randrange(len(srcs))
+    e = copy.deepcopy(loaded)
+    x = e['data_sources'][i]
+    what = r.choice(['has_header', 'delimiter', 'decimal_separator', 'negate_amount', 'file', 'name', 'supplemental', 'extra'])
+    if what == 'has_header':
+        x['has_header'] = not bool(x.get('has_header', True))
+    elif what == 'delimiter':
+        x['delimiter'] = ';' if x.get('delimiter') != ';' else '|'
+    elif what == 'decimal_separator':
+        x['decimal_separator'] = ',' if x.get('decimal_separator') != ',' else '.'
+    elif what == 'negate_amount':
+        x['negate_amount'] = not bool(x.get('negate_amount', False))
+    elif what == 'file':
+        x['file'] = 'data/not-there-%d.csv' % i
+    elif what == 'name':
+        x['name'] = 'Renamed %d' % i
+    elif what == 'supplemental':
+        x['supplemental'] = not x.get('supplemental', False)
+    else:
+        x['note_%d' % i] = ['anything']
+    out.append(('source %d: %s' % (i, what), e, i))
+    e = copy.deepcopy(loaded)
+    what = r.choice(['year', 'title', 'rule_mode', 'views_file', 'currency_format', 'unknown'])
+    if what == 'rule_mode':
+        e['rule_mode'] = 'most_specific' if e.get('rule_mode') != 'most_specific' else 'first_match'
+    elif what == 'views_file':
+        e['views_file'] = 'config/no-such-views.rules'
+    else:
+        e[what] = r.choice([2024, 'x', None, ['y']])
+    out.append(('top level: ' + what, e, None))
+    return out
+
+
+def locality_oracle(r, case, loaded, ip, root1):
+    """changing ONE setting of ONE source leaves the parser calls of every OTHER source as they are; changing a top-level key other than
+    data_sources leaves ALL of them as they are (calls observed on the real cmd_run, before and after)"""
+    fails = []
+    if ip is None or 'ok' not in ip:
+        return fails
+    symbolic = case['settings']          # (absolute paths still as the placeholder: each run has its own temporary root)
+    for what, edited, idx in locality_variants(r, symbolic):
+        c2 = dict(case, settings=edited)
+        c2.pop('text', None)
+        root, cfgdir, _ = materialise(c2)
+        try:
+            ip2 = impl_plan(cfgdir, True)
+            if ip2.get('completed'):
+                ip2 = {'ok': ip2['calls']}
+        finally:
+            shutil.rmtree(root, ignore_errors=True)
+        if 'ok' not in ip2:
+            if idx is None:
+                fails.append({'class': 'top-level-setting-not-local', 'config_case': case, 'edit': what, 'after': ip2})
+            continue
+
+        def others(calls, rt):
+            # compare what is handed to the parser; the temporary directory differs between the two runs
+            return [dict(c, path=c['path'].replace(rt, '/@ROOT@')) for c in calls if idx is None or c.get('index') != idx or c['call'] != 'generic']
+        before, after = others(ip['ok'], root1), others(ip2['ok'], root)
+        if idx is not None:
+            # amex / boa calls carry no index: drop the edited source's own call by its file
+            srcs = symbolic['data_sources']
+            own = os.path.normpath(os.path.join('/@ROOT@/b', absify(srcs[idx]['file'], '/@ROOT@')))
+            before = [c for c in before if c['call'] == 'generic' or os.path.normpath(c['path']) != own]
+            after = [c for c in after if c['call'] == 'generic' or os.path.normpath(c['path']) != own]
+        if before != after:
+            fails.append({'class': 'setting-not-local' if idx is not None else 'top-level-setting-not-local', 'config_case': case, 'edit': what,
+                          'other_sources_before': before, 'other_sources_after': after})
+    return fails
+
+
+
 # ---------------------------------------------------------------- what the reader makes of the raw argument values
 
 PROBE_H = 'h1,h2,h3;h4;h5|h6|h7\th8\th9 h10 h11:h12:h13\u2003h14\u2003h15'
@@ -558,7 +724,7 @@ def run_streams(ctx):
     else:
         n_ok, n_bad = (220, 260) if quick else (6000, 8000)
         cases = hand_written_cases() + [gen_case(r, False) for _ in range(n_ok)] + [gen_case(r, True) for _ in range(n_bad)]
-    load_fail, plan_fail, read_fail = [], [], []
+    load_fail, plan_fail, read_fail, prop_fail = [], [], [], []
     stats = {'cases': 0, 'unmodelled_values': 0, 'load_ok': 0, 'load_errors': {}, 'plans_with_calls': 0, 'plan_errors': {}, 'calls': 0,
              'sources_resolved': 0, 'sources_generic': 0, 'sources_special': 0, 'sources_supplemental_truthy': 0, 'settings_of_other_type': 0,
              'rules_file': {}, 'warnings': {}, 'second_path_taken': 0, 'read_probes': 0, 'read_errors': 0}
@@ -577,7 +743,7 @@ def run_streams(ctx):
             except Exception as e:       # noqa   (yaml refuses the text: not a settings object at all)
                 stats['unmodelled_values'] += 1
                 continue
-            work.append({'case': case, 'root': root, 'cfgdir': cfgdir, 'settings': sj, 'ext': ext_of(loaded), 'exists': [], 'views_ok': []})
+            work.append({'case': case, 'root': root, 'cfgdir': cfgdir, 'settings': sj, 'ext': ext_of(loaded), 'exists': [], 'views_ok': [], 'loaded': loaded})
         # round 1: which paths does the model ask about; round 2: with the answers
         def ops():
             return [{'op': 'config', 'settings': w['settings'], 'cfgdir': w['cfgdir'], 'exists': w['exists'], 'views_ok': w['views_ok'], 'ext': w['ext']} for w in work]
@@ -593,6 +759,7 @@ def run_streams(ctx):
             il, ml = impl_load(w['cfgdir']), model_load_view(o)
             if il != ml:
                 load_fail.append({'config_case': w['case'], 'settings_as_loaded': w['settings'], 'model': ml, 'implementation': il})
+                prop_fail.extend(settings_oracle(w['case'], w['cfgdir'], w['loaded'], il, None))
                 continue
             if 'err' in il:
                 stats['load_errors'][il['err']] = stats['load_errors'].get(il['err'], 0) + 1
@@ -602,6 +769,7 @@ def run_streams(ctx):
             stats['sources_resolved'] += len(k['sources'])
             for s in k['sources']:
                 stats['sources_generic' if s['format_spec'] else 'sources_special'] += 1
+                stats['sources_supplemental_truthy'] += bool(_py_truthy(s['supplemental']))
                 fs = s['format_spec'] or {}
                 stats['settings_of_other_type'] += sum(1 for key, ok in (('delimiter', (str, type(None))), ('has_header', (bool,)), ('negate_amount', (bool,)))
                                                        if fs and not isinstance(fs[key], ok))
@@ -612,12 +780,16 @@ def run_streams(ctx):
             # the rules file must load for cmd_run to reach the loop: only such budgets go to the plan stream
             mpath = k['merchants']['path']
             if mpath and (os.path.isdir(mpath) or not (mpath.endswith('.rules') or mpath.endswith('.csv'))):
+                prop_fail.extend(settings_oracle(w['case'], w['cfgdir'], w['loaded'], il, None))
                 continue
+            ipq = None
             for quiet in (True, False):
                 raws = []
                 ip, mp = impl_plan(w['cfgdir'], quiet, raws), model_plan_view(o, quiet)
                 if ip.get('completed'):
                     ip = {'ok': ip['calls']}
+                if quiet:
+                    ipq = ip
                 if ip != mp:
                     plan_fail.append({'config_case': w['case'], 'quiet': quiet, 'settings_as_loaded': w['settings'], 'model': mp, 'implementation': ip})
                     break
@@ -627,7 +799,16 @@ def run_streams(ctx):
                 elif quiet:
                     stats['plans_with_calls'] += bool(ip['ok'])
                     stats['calls'] += len(ip['ok'])
+                    # non-trivial: at least two sources resolved, at least one parser call made AND at least one source NOT parsed (supplemental /
+                    # missing file / unknown) or read with a non-default setting
+                    odd = len(ip['ok']) < len(k['sources']) or any(c['call'] == 'generic' and (c['format_spec']['delimiter'] is not None or c['format_spec']['has_header'] is not True
+                                                                   or c['decimal_separator'] != '.' or c['format_spec']['negate_amount'] is not False) for c in ip['ok'])
+                    stats['nontrivial'] = stats.get('nontrivial', 0) + (len(k['sources']) >= 2 and bool(ip['ok']) and odd)
                     stats['second_path_taken'] += sum(1 for c in ip['ok'] if '/../' in c['path'] or '//' in c['path'])
+            prop_fail.extend(settings_oracle(w['case'], w['cfgdir'], w['loaded'], il, ipq))
+            if stats['load_ok'] % (3 if quick else 2) == 0 or ctx.replay:
+                stats['locality_runs'] = stats.get('locality_runs', 0) + 1
+                prop_fail.extend(locality_oracle(r, w['case'], w['loaded'], ipq, w['root']))
             gen = [x for x in o.get('plan_verbose', {}).get('ok', []) if x['call'] == 'generic']
             if len(gen) == len(raws):            # (the last run was the verbose one; the plans agree, so the i-th raw triple is the i-th generic call)
                 for x, raw in zip(gen, raws):
@@ -657,4 +838,36 @@ def run_streams(ctx):
     res['load'] = (load_fail, stats['cases'])
     res['plan'] = (plan_fail, stats['load_ok'])
     res['read'] = (read_fail, stats['read_probes'])
-    return res, stats
+    return res, stats, prop_fail
+
+
+def search(ctx, budget=1200):
+    """bigger budget, implementation only: fresh settings objects through load_config / cmd_run and the oracles above"""
+    r = ctx.rng
+    out = []
+    for n in range(budget):
+        case = gen_case(r, hostile=(n % 3 == 2))
+        root, cfgdir, st = materialise(case)
+        try:
+            from tally import config_loader
+            try:
+                loaded = config_loader.load_settings(cfgdir)
+                y_json(loaded)
+            except Exception:       # noqa
+                continue
+            il = impl_load(cfgdir)
+            ip = None
+            if 'ok' in il:
+                mpath = il['ok']['merchants']['path']
+                if not (mpath and (os.path.isdir(mpath) or not (mpath.endswith('.rules') or mpath.endswith('.csv')))):
+                    ip = impl_plan(cfgdir, True)
+                    if ip.get('completed'):
+                        ip = {'ok': ip['calls']}
+            out.extend(settings_oracle(case, cfgdir, loaded, il, ip))
+            if not out and ip is not None:
+                out.extend(locality_oracle(r, case, loaded, ip, root))
+        finally:
+            shutil.rmtree(root, ignore_errors=True)
+        if out:
+            break
+    return out
